@@ -9,19 +9,19 @@ open Rtp Rtp.Proto Rtp.Model
 
   `c02.parse <buf> <opt prev> => recv(fresh) recv(reused)`
      recv := hres pres
-     hres := ok <header> <n> <list int locs> <list u8 ids> <list obytes gets> | err <k> | panic
-     pres := ok <packet> <int payOff> <list int locs> <list u8 ids> <list obytes gets> | err <k> | panic
+     hres := ok <header> <n> <nExt> <list int locs> <list u8 ids> <list obytes gets> | err <k> | panic
+     pres := ok <packet> <nExt> <int payOff> <list int locs> <list u8 ids> <list obytes gets> | err <k> | panic
 -/
 
 def rdHdrOk : Rd Pred.C02.HdrOk := do
-  let h ← rdHeader; let n ← Rd.nat; let locs ← Rd.list Rd.int
+  let h ← rdHeader; let n ← Rd.nat; let ne ← Rd.nat; let locs ← Rd.list Rd.int
   let ids ← Rd.list Rd.u8; let gets ← Rd.list Rd.obytes
-  pure { h := h, n := n, locs := locs, ids := ids, gets := gets }
+  pure { h := h, n := n, nExt := ne, locs := locs, ids := ids, gets := gets }
 
 def rdPktOk : Rd Pred.C02.PktOk := do
-  let p ← rdPacket; let off ← Rd.int; let locs ← Rd.list Rd.int
+  let p ← rdPacket; let ne ← Rd.nat; let off ← Rd.int; let locs ← Rd.list Rd.int
   let ids ← Rd.list Rd.u8; let gets ← Rd.list Rd.obytes
-  pure { p := p, payOff := off, locs := locs, ids := ids, gets := gets }
+  pure { p := p, nExt := ne, payOff := off, locs := locs, ids := ids, gets := gets }
 
 def rdRecv : Rd Pred.C02.Recv := do
   let h ← Rd.resC rdHdrOk; let p ← Rd.resC rdPktOk
